@@ -611,12 +611,19 @@ enum HOp {
     /// select_function(Some(0)) / select_function(Some(last)): back into an earlier / the latest function
     SelectFirst,
     SelectLast,
+    /// name(<id of the first / the last function>, "f"): two functions may carry the same name
+    NameFirst,
+    NameLast,
+    /// select_function_by_name("f"): the function the FIRST such OpName targets (only when that function is still open)
+    SelectByName,
+    /// module() -> Builder::new_from_module: a second session on the same module (only with nothing selected)
+    Continue,
 }
 
-const HOPS: [HOp; 30] = [
+const HOPS: [HOp; 34] = [
     HOp::Capability, HOp::ExtInstImport, HOp::MemoryModel, HOp::EntryPoint, HOp::ExecutionMode, HOp::DebugString, HOp::Name, HOp::ModuleProcessed,
     HOp::Decorate, HOp::TypeVoid, HOp::TypeInt64, HOp::Constant64, HOp::Variable, HOp::Line, HOp::NoLine, HOp::Switch64, HOp::ReserveId, HOp::UndefReserved, HOp::SwitchReserved, HOp::BeginFunction, HOp::Parameter, HOp::BeginBlock,
-    HOp::IAdd, HOp::Ret, HOp::Kill, HOp::EndFunction, HOp::SetVersion, HOp::SelectNone, HOp::SelectFirst, HOp::SelectLast,
+    HOp::IAdd, HOp::Ret, HOp::Kill, HOp::EndFunction, HOp::SetVersion, HOp::SelectNone, HOp::SelectFirst, HOp::SelectLast, HOp::NameFirst, HOp::NameLast, HOp::SelectByName, HOp::Continue,
 ];
 
 /// applies one call; false = the call failed (state unchanged) or is not enabled
@@ -632,6 +639,9 @@ struct HState {
     /// model of the function brackets: open[i] = function i has been begun and not ended; sel = the selected function
     open: Vec<bool>,
     sel: Option<usize>,
+    /// function indices in the order in which they were given the name "f"
+    named: Vec<usize>,
+    continued: bool,
 }
 
 fn apply(b: &mut Builder, o: HOp, st: &mut HState) -> bool {
@@ -710,6 +720,37 @@ fn apply(b: &mut Builder, o: HOp, st: &mut HState) -> bool {
             st.open.push(true);
             st.sel = Some(st.open.len() - 1);
         }
+        HOp::NameFirst | HOp::NameLast => {
+            let n = b.module_ref().functions.len();
+            if n == 0 || st.named.len() >= 2 {
+                return false;
+            }
+            let idx = if o == HOp::NameFirst { 0 } else { n - 1 };
+            if st.named.contains(&idx) {
+                return false;
+            }
+            let Some(id) = b.module_ref().functions[idx].def_id() else { return false };
+            b.name(id, "f");
+            st.named.push(idx);
+        }
+        HOp::SelectByName => {
+            let Some(&idx) = st.named.first() else { return false };
+            if b.selected_block().is_some() || b.selected_function() == Some(idx) || !st.open.get(idx).copied().unwrap_or(false) {
+                return false;
+            }
+            if b.select_function_by_name("f").is_err() {
+                return false;
+            }
+            st.sel = Some(idx);
+        }
+        HOp::Continue => {
+            if st.continued || b.selected_function().is_some() || b.selected_block().is_some() || st.open.iter().any(|o| *o) {
+                return false;
+            }
+            let old = std::mem::replace(b, Builder::new());
+            *b = Builder::new_from_module(old.module());
+            st.continued = true;
+        }
         HOp::SelectNone => {
             if b.selected_function().is_none() || b.selected_block().is_some() {
                 return false;
@@ -783,7 +824,22 @@ fn check_history(h: &[HOp]) -> (Option<Viol>, bool, Option<u64>) {
         let s = snap(b.module_ref());
         let mut hs = std::collections::hash_map::DefaultHasher::new();
         s.hash(&mut hs);
-        (b.selected_function(), b.selected_block(), b.version(), &st.open).hash(&mut hs);
+        (b.selected_function(), b.selected_block(), b.version(), &st.open, &st.named, st.continued, st.reserved).hash(&mut hs);
+        // every result id of a module whose ids all came from the builder is carried by ONE instruction
+        {
+            let mut ids: Vec<u32> = b.module_ref().all_inst_iter().filter_map(|i| i.result_id).collect();
+            let n = ids.len();
+            ids.sort();
+            ids.dedup();
+            if ids.len() != n {
+                return Err("duplicate-result-id: two instructions of the module under construction carry the same result id although every id was taken from the builder".to_string());
+            }
+            if let Some(r) = st.reserved {
+                if st.late.is_none() && ids.contains(&r) {
+                    return Err(format!("duplicate-result-id: the id {} reserved with id() was handed out again to an instruction", r));
+                }
+            }
+        }
         let key = hs.finish();
         if !complete {
             return Ok((false, Some(key)));
@@ -1133,6 +1189,10 @@ fn main() {
         vec![HOp::TypeInt64, HOp::Constant64, HOp::BeginFunction, HOp::BeginBlock, HOp::Ret, HOp::EndFunction],
         vec![HOp::TypeInt64, HOp::ReserveId, HOp::Constant64, HOp::BeginFunction, HOp::BeginBlock, HOp::IAdd, HOp::IAdd],
         vec![HOp::TypeInt64, HOp::Constant64, HOp::BeginFunction, HOp::BeginBlock, HOp::Ret, HOp::EndFunction, HOp::BeginFunction, HOp::BeginBlock],
+        // two sessions: an id reserved at the end of the first, then new_from_module
+        vec![HOp::TypeInt64, HOp::ReserveId, HOp::Continue],
+        // two open functions carrying the same name, given last-first
+        vec![HOp::BeginFunction, HOp::SelectNone, HOp::BeginFunction, HOp::SelectNone, HOp::NameLast, HOp::NameFirst],
         // headers first, bodies later: two functions begun one after the other, neither ended yet
         vec![HOp::BeginFunction, HOp::SelectNone, HOp::BeginFunction],
         vec![HOp::BeginFunction, HOp::Parameter, HOp::SelectNone, HOp::BeginFunction, HOp::SelectNone, HOp::BeginFunction],
